@@ -287,6 +287,11 @@ impl OsIpcSender {
             data_buffer: &[u8],
             len: usize,
         ) -> Result<(), UnixError> {
+            // The receiver's control message buffer holds at most `MAX_FDS_IN_CMSG` descriptors;
+            // anything beyond that would be silently dropped by the kernel on receipt.
+            if fds.len() > MAX_FDS_IN_CMSG as usize {
+                return Err(UnixError::Errno(libc::EMSGSIZE));
+            }
             let result = unsafe {
                 let cmsg_length = mem::size_of_val(fds);
                 let (cmsg_buffer, cmsg_space) = if cmsg_length > 0 {
